@@ -33,7 +33,11 @@ fn main() {
     for (cfg, cap) in cfgs {
         let label = cfg.label.clone();
         let model = match QfModel::new(cfg, false) {
-            Ok(m) => m,
+            Ok(mut m) => {
+                // one-step look-ahead from every duplicate arrival (state the key cannot see): tables up to 4 slots in quick, 8 in thorough
+                m.lookahead = m.cfg.capacity() <= if run.thorough() { 8 } else { 4 } && m.cfg.universe.len() <= 32;
+                m
+            }
             Err(e) => {
                 run.violation(Viol { property: "C13".into(), signature: format!("{} classes", label), message: e.clone(), replay: json!({"structure": "QuotientFilter", "config": label, "what": e}) });
                 continue;
